@@ -390,6 +390,12 @@ pub fn c07(a: &Args) -> (Stats, String) {
     s.extend(fam::seam(-70, -25));
     s.extend(fam::seam(15, 45));
     fams.push(("SEAM near both ends", s));
+    if let Some(p) = &a.hard {
+        // round 9: the number-theoretic cases (closest approaches, second-multiplication and low-word cases, structural
+        // digit strings) whose value lies in this property's ranges - selected by the scope filter below
+        fams.push(("HARD(q) in the end ranges", crate::hard_jobs(p, MBOTH)));
+        fams.push(("GAPS + LIMB-EDGE + RIPPLE + POW2-POS in the end ranges", crate::gap_jobs(p)));
+    }
     let extra = if a.thorough { 1024 } else { 32 };
     let b64: Vec<u64> = (0..6).chain(2040..2047).collect();
     let b32: Vec<u64> = (0..6).chain(248..255).collect();
@@ -656,6 +662,20 @@ pub fn c15(a: &Args) -> (Stats, String) {
                             st.bump("calls_that_allocated");
                             if r2.is_ok() && !cfg!(feature = "alloc") {
                                 st.violation(mk_viol(c, F::FMT, "heap-allocation", format!("{} allocation(s) during the call through Chain+Filter iterators", delta2), "0".into()));
+                            }
+                        }
+                        // and through iterators with NO upper size bound: Flatten over 3-byte groups (size_hint = (n, None))
+                        // (round 9, C15-S: a "collect first when the length is unknown" shortcut only shows here)
+                        st.calls += 1;
+                        let before = crate::alloc_count::allocs();
+                        let r3 = std::panic::catch_unwind(std::panic::AssertUnwindSafe(|| {
+                            minimal_lexical::parse_float::<F, _, _>(c.int.chunks(3).flatten(), c.frac.chunks(3).flatten(), c.exp)
+                        }));
+                        let delta3 = crate::alloc_count::allocs() - before;
+                        if delta3 != 0 {
+                            st.bump("calls_that_allocated");
+                            if r3.is_ok() && !cfg!(feature = "alloc") {
+                                st.violation(mk_viol(c, F::FMT, "heap-allocation", format!("{} allocation(s) during the call through Flatten iterators (no upper size bound)", delta3), "0".into()));
                             }
                         }
                     }
